@@ -92,10 +92,11 @@ def replay_front(data):
     import chmpy.sampling as cs
     bad = []
     for method in ("sobol", "kgf"):
-        a = cs.quasirandom(5, 3, method=method, seed=4)
-        b = np.array([cs.quasirandom(3, method=method, seed=4 + k) for k in range(5)])
-        if a.shape != (5, 3) or not np.array_equal(a, b):
-            bad.append("quasirandom(d1, d2, %s, seed) is not the points of seeds seed..seed+d1-1" % method)
+        for seed0 in (4, 1, 2):          # seed 1 is the Sobol origin (all coordinates exactly 0)
+            a = cs.quasirandom(5, 3, method=method, seed=seed0)
+            b = np.array([cs.quasirandom(3, method=method, seed=seed0 + k) for k in range(5)])
+            if a.shape != (5, 3) or not np.array_equal(a, b):
+                bad.append("quasirandom(5, 3, %s, seed=%d) is not exactly the points of seeds seed..seed+4" % (method, seed0))
         if not np.array_equal(a, cs.quasirandom(5, 3, method=method, seed=4)):
             bad.append("quasirandom not deterministic")
         # results depend only on the arguments: a caller that rescales its own array in place must not change what the
